@@ -6,5 +6,12 @@ import DnsVerif.Props.C02
 #print axioms DnsVerif.Props.C02.O4_lengthWithoutLastLabel
 #print axioms DnsVerif.Props.C02.findMapSorted_eq_findMapV1
 #print axioms DnsVerif.Props.C02.findMapSorted_spec
+#print axioms DnsVerif.Props.C02.skip_lemma
+#print axioms DnsVerif.Props.C02.seek_delivers_skip_hypothesis
+#print axioms DnsVerif.Props.C02.findGo_single_step
+#print axioms DnsVerif.Props.C02.findGo_pre_stop
+#print axioms DnsVerif.Props.C02.isAuthoritativeV2_agrees_V1
+#print axioms DnsVerif.Props.C02.isAuthoritativeV2_eq_V1_partial
+#print axioms DnsVerif.Props.C02.isAuthoritativeV2_eq_V1_literal_false
 #print axioms DnsVerif.Props.C02.marker_order_facts
 #print axioms DnsVerif.Props.C02.featuresKey_above
